@@ -1047,7 +1047,7 @@ for _p in ('C03', 'C04', 'C05', 'C10', 'C14'):
 
 @check('C05', ['C05.v', 'C05mate.v', 'C05src.v'])
 def c05(ctx):
-    n = 260 if ctx.quick else 1500
+    n = 260 if ctx.quick else 800
     allpos = S.positions(ctx, n, extra_seed=5)
     pos = [p for p in allpos if p['men'] <= 7]
     maxd = 3 if ctx.quick else 4
@@ -1104,7 +1104,9 @@ def c05(ctx):
             plies = abs(val) * 2 - (1 if val > 0 else 0)
             o = run_oracle(['MMATE\t%s\t%d' % (p['fen'], min(plies, maxd + 1))])[0]
             real = o.startswith('MATE ') and int(o.split()[1]) == (plies if val > 0 else -plies)
-            if not real:
+            if not (o.startswith('MATE ') or o == 'NONE'):
+                undecided_mates = locals().get('undecided_mates', 0) + 1     # the solver ran out of time on this tree: no verdict
+            elif not real:
                 ctx.v.violation('announced-mate-does-not-exist', {'fen': p['fen'], 'engine_final': 'mate %d' % val, 'solver': o, 'engine_lines': j.lines[-3:]},
                                 signature=sig('c05r', p['fen']))
         if len(ctx.v.violations) >= 5:
@@ -1124,7 +1126,7 @@ def c05(ctx):
             crash_violation(ctx, {'fen': f, 'job': j}, 'C05')
             continue
         kind, val, pv, nodes = its[max(its)]
-        if kind == 'mate' and not o.startswith('MATE '):
+        if kind == 'mate' and o == 'NONE':
             ctx.v.violation('announced-mate-does-not-exist', {'fen': f, 'go': 'go depth 1', 'engine_final': 'mate %d' % val, 'solver_to_2_plies': o,
                             'engine_lines': j.lines[-3:], 'note': 'an evaluation of extreme material is printed as a mate'}, signature=sig('c05x', f))
     # mates whose key move is an en-passant capture right after a double push that arrived in a move list
@@ -1140,6 +1142,8 @@ def c05(ctx):
             crash_violation(ctx, {'fen': f, 'job': j}, 'C05')
             continue
         kind, val, pv, nodes = its[max(its)]
+        if not (o.startswith('MATE ') or o == 'NONE'):
+            continue          # no verdict from the solver
         sol = int(o.split()[1]) if o.startswith('MATE ') else None
         exp = (abs(sol) + 1) // 2 * (1 if sol > 0 else -1) if sol is not None else None
         if (sol is not None and abs(sol) <= depth and (kind != 'mate' or val != exp)) or (sol is None and kind == 'mate' and abs(val) * 2 - (1 if val > 0 else 0) <= depth):
@@ -1480,7 +1484,7 @@ def sched_desc(r):
 
 @check('C11', ['C11.v', 'C03chess.v'])
 def c11(ctx):
-    npos, maxd, maxk = (4, 3, 3) if ctx.quick else (14, 4, 8)
+    npos, maxd, maxk = (4, 3, 3) if ctx.quick else (9, 4, 6)
     rows, err, rc = run_sched(ctx, npos, maxd, maxk, mode='c11')
     cut = [r for r in rows if ('stop' in r['cmds'] or r['hold_ms'] > 0) and r['reached']]
     req, meta = [], []
